@@ -40,10 +40,10 @@ Print Assumptions C17_nesting_kept_plain.
      with the ENTRY / EXIT time), a call that is not recorded contributes nothing.
    Guard [all_xtimed]: time stamps below 2^64, and a call with a read= trigger takes at least one clock
    tick (see C17_zero_duration_refuted).  No watch points, no argument capture (see below). *)
-Theorem C17_read_diff : forall thr gd ms sh rd pm f,
-  all_xtimed thr gd ms sh rd pm f -> heights (map strip f) <= ms ->
-  xout (snd (xexec (xplain thr gd ms sh rd pm) (flat_map xflat f) xstart)) =
-  flat_map (xrecs (xplain thr gd ms sh rd pm) thr gd 0) f.
+Theorem C17_read_diff : forall thr gd ms sh rd pm fv fd f,
+  all_xtimed thr gd ms sh rd pm fv fd f -> heights (map strip f) <= ms ->
+  xout (snd (xexec (xplain thr gd ms sh rd pm fv fd) (flat_map xflat f) xstart)) =
+  flat_map (xrecs (xplain thr gd ms sh rd pm fv fd) thr gd 0) f.
 Proof. exact xrun_forest. Qed.
 Print Assumptions C17_read_diff.
 
@@ -58,8 +58,8 @@ Proof. exact read_diff_example. Qed.
 Print Assumptions C17_read_diff_example.
 
 (* read / diff events are dropped together with a call that is filtered out (time filter, depth limit) *)
-Theorem C17_read_dropped_with_call : forall thr gd ms sh rd pm k d,
-  recs thr gd d (strip k) = [] -> xrecs (xplain thr gd ms sh rd pm) thr gd d k = [].
+Theorem C17_read_dropped_with_call : forall thr gd ms sh rd pm fv fd k d,
+  recs thr gd d (strip k) = [] -> xrecs (xplain thr gd ms sh rd pm fv fd) thr gd d k = [].
 Proof. exact read_events_dropped_with_call. Qed.
 Print Assumptions C17_read_dropped_with_call.
 
@@ -113,7 +113,7 @@ Print Assumptions C17_watch_limit.
 
 (* -W var:NAME, one thread: the same statement under the exact guard that the variable never returns to
    the value it had at the thread's first hook ... *)
-Theorem C17_watch_var_iff_changed_partial : forall C v0, wp_var C = true -> forall l X, pend X = [] ->
+Theorem C17_watch_var_iff_changed_partial : forall C v0, fix_var C = false -> wp_var C = true -> forall l X, pend X = [] ->
   v_copy X = Some v0 -> g_init X = false -> no_return v0 (map (fun p => o_var (snd p)) l) ->
   var_values (wrun C l X) = nchanges_from v0 (map (fun p => o_var (snd p)) l).
 Proof. exact var_run. Qed.
@@ -126,6 +126,14 @@ Theorem C17_watch_var_refuted :
   nchanges_from 3 [3; 4; 3] = [4; 3].
 Proof. exact var_watch_refuted. Qed.
 Print Assumptions C17_watch_var_refuted.
+
+(* for the code with proposed-fixes/C17-2.diff (model variant fix_var = true: the thread's copy follows
+   the observations) the statement holds for EVERY sequence of values *)
+Theorem C17_watch_var_iff_changed_fixed : forall C, fix_var C = true -> wp_var C = true -> forall l X v0,
+  pend X = [] -> v_copy X = Some v0 -> (g_init X = true -> g_val X = v0) ->
+  var_values (wrun C l X) = nchanges_from v0 (map (fun p => o_var (snd p)) l).
+Proof. exact var_run_fixed. Qed.
+Print Assumptions C17_watch_var_iff_changed_fixed.
 
 (* ------------------------------------------------------------------ dropped with the call: watch events *)
 (* FALSE (genuine defect): the watch events queued by a call that the time filter then drops stay in the
@@ -144,6 +152,23 @@ Theorem C17_invalidate_keeps_own : forall e n,
   invalidate (n + 1) [{| a_ev := e; a_idx := n |}] = [{| a_ev := e; a_idx := n |}].
 Proof. exact invalidate_keeps_own. Qed.
 Print Assumptions C17_invalidate_keeps_own.
+
+(* for the code with proposed-fixes/C17-3.diff (model variant fix_drop = true): the same history records
+   neither f1 nor its events; and in general, on a queue ordered by frame index, the invalidation at the exit
+   of frame n keeps exactly the events of the frames below n *)
+Theorem C17_watch_dropped_with_call_fixed :
+  xout (snd (xexec drop_cfg_fixed drop_run xstart)) =
+  [IR {| r_time := 100; r_type := ENTRY; r_depth := 0; r_addr := 0 |}; wcpu 101 3;
+   IR {| r_time := 130; r_type := ENTRY; r_depth := 1; r_addr := 512 |};
+   IR {| r_time := 190; r_type := EXIT; r_depth := 1; r_addr := 512 |};
+   IR {| r_time := 200; r_type := EXIT; r_depth := 0; r_addr := 0 |}].
+Proof. exact watch_dropped_with_call_fixed. Qed.
+Print Assumptions C17_watch_dropped_with_call_fixed.
+
+Theorem C17_invalidate_sorted : forall m p, sorted_idx p ->
+  invalidate m p = filter (fun x => a_idx x <? m) p.
+Proof. exact invalidate_sorted. Qed.
+Print Assumptions C17_invalidate_sorted.
 
 (* ------------------------------------------------------------------ events and arguments in one frame buffer *)
 (* the guard of save_trigger_read would keep events and argument bytes apart if the word it adds to the
